@@ -105,6 +105,7 @@ type harnessEvidence struct {
 	AssumeKills    int64                  `json:"assume_kills"`
 	Truncated      bool                   `json:"truncated"`
 	TracesChecked  int                    `json:"traces_validated"`
+	CutReplayed    int                    `json:"cut_paths_replayed_natively"`
 	TraceMismatch  int                    `json:"trace_mismatches"`
 	Unconfirmed    int                    `json:"unconfirmed_candidates"`
 	Confirmed      int                    `json:"confirmed_violations"`
@@ -264,6 +265,18 @@ func cmdRun(args []string) int {
 		harvested := map[string]bool{}
 		harvest := func(vec []int64, lines []string) {
 			for _, l := range lines {
+				if strings.HasPrefix(l, "PANIC") && hr.Panics && !ignore["no-panic"] {
+					site := ""
+					if k := strings.LastIndex(l, " @ "); k >= 0 {
+						site = l[k+3:]
+					}
+					c := &Candidate{Harness: hr.Harness, Assertion: "no-panic", Site: site, Vals: vec, Text: fmt.Sprintf("native replay vector %v", vec), Msg: l}
+					if _, have := ex.Cands[c.key()]; !have && !harvested[c.key()] {
+						harvested[c.key()] = true
+						ex.Cands[c.key()] = []*Candidate{c}
+					}
+					continue
+				}
 				if !strings.HasPrefix(l, "ASSERT-FAIL ") {
 					continue
 				}
@@ -297,6 +310,20 @@ func cmdRun(args []string) int {
 		}
 		for i, lines := range traceOuts {
 			harvest(ex.TraceVecs[i], lines)
+		}
+		// paths the engine had to cut are still replayed natively on one concrete representative
+		// each: the native run cannot widen the claim, but a failing assertion there is real
+		if len(ex.CutVecs) > 0 {
+			reqs := make([]twinReq, len(ex.CutVecs))
+			for i, v := range ex.CutVecs {
+				reqs[i] = twinReq{Harness: hr.Harness, Params: hr.Params, Vals: v}
+			}
+			if outs, err := twin.RunBatch(reqs); err == nil {
+				he.CutReplayed = len(outs)
+				for i, lines := range outs {
+					harvest(ex.CutVecs[i], lines)
+				}
+			}
 		}
 
 		// confirmation of candidates
